@@ -12,24 +12,34 @@ from codec_common import compile_many, run_routed, correspond_with, hexbytes, IO
 # (format, pixel, bytes per pixel in the op line, harness selector)
 NATIVE = [("bmp", "rgb8", 3, 1), ("bmp", "rgba8", 4, 2), ("pnm", "gray8", 1, 3), ("pnm", "rgb8", 3, 4), ("pnm", "gray1", 1, 5),
           ("targa", "rgb8", 3, 6), ("targa", "rgba8", 4, 7)]
-ORGS = {"rgb8": ["il", "pl", "sub", "step", "flip", "alt"], "rgba8": ["il", "pl", "sub", "step", "flip", "alt"],
-        "gray8": ["il", "sub", "step", "flip"], "gray1": ["il", "sub"]}
+# organisations = [<source>-]<kind> (harness/C12/c12.hpp): source none / pl (planar) / alt, alt2, alt3 (other channel orders, among
+# them the order the file stores: bgr8, bgra8); kind il, sub, step, xstep, flip, fliplr, transp, rot90
+BASE = ["il", "sub", "step", "xstep", "flip", "fliplr", "transp", "rot90"]
+LITE = ["il", "step", "fliplr", "transp"]
+def orgs(pl=False, alts=0, full_alt=True, lite_alts=0):
+    o = list(BASE)
+    if pl: o += ["pl-" + k for k in LITE]
+    for i in range(alts): o += [("alt%s-" % ("" if i == 0 else i + 1)) + k for k in (BASE if full_alt else LITE)]
+    for i in range(alts, alts + lite_alts): o += [("alt%d-" % (i + 1)) + k for k in LITE]
+    return o
+ORGS = {"rgb8": orgs(pl=True, alts=1), "rgba8": orgs(pl=True, alts=2), "gray8": list(BASE), "gray1": ["il", "sub"]}
 DEVS = ["fn", "fp", "ss", "of"]
 
 # external codecs: pixel -> (channels, bytes per channel, max channel value (None = any bit pattern), orgs, selector)
-PNG = {"gray8": (1, 1, 255, ["il", "sub", "step", "flip"], 1), "rgb8": (3, 1, 255, ORGS["rgb8"], 1), "rgba8": (4, 1, 255, ORGS["rgba8"], 1),
+PNG = {"gray8": (1, 1, 255, BASE, 1), "rgb8": (3, 1, 255, orgs(pl=True, alts=1, full_alt=False), 1),
+       "rgba8": (4, 1, 255, orgs(pl=True, alts=2, full_alt=False, lite_alts=1), 1),
        "ga8": (2, 1, 255, ["il", "sub"], 1),
-       "gray16": (1, 2, 65535, ["il", "sub", "step", "flip"], 2), "rgb16": (3, 2, 65535, ORGS["rgb8"], 2),
-       "rgba16": (4, 2, 65535, ["il", "pl", "sub", "step", "flip"], 2), "ga16": (2, 2, 65535, ["il", "sub"], 2),
+       "gray16": (1, 2, 65535, BASE, 2), "rgb16": (3, 2, 65535, orgs(pl=True, alts=1, full_alt=False), 2),
+       "rgba16": (4, 2, 65535, orgs(pl=True), 2), "ga16": (2, 2, 65535, ["il", "sub"], 2),
        "gray1": (1, 1, 1, ["il", "sub"], 3), "gray2": (1, 1, 3, ["il", "sub"], 3), "gray4": (1, 1, 15, ["il", "sub"], 3)}
-TIFF = {"gray8": (1, 1, 255, ["il", "sub", "step", "flip"], 4), "rgb8": (3, 1, 255, ORGS["rgb8"], 4),
-        "rgba8": (4, 1, 255, ["il", "pl", "sub", "step", "flip"], 5), "gray16": (1, 2, 65535, ["il", "sub", "step", "flip"], 5),
-        "rgb16": (3, 2, 65535, ["il", "pl", "sub", "step", "flip"], 5),
-        "gray32": (1, 4, 2**32 - 1, ["il", "sub", "step", "flip"], 6), "gray32f": (1, 4, "f32", ["il", "sub", "step", "flip"], 6),
-        "cmyk8": (4, 1, 255, ["il", "sub", "step", "flip"], 6),
+TIFF = {"gray8": (1, 1, 255, BASE, 4), "rgb8": (3, 1, 255, orgs(pl=True, alts=1, full_alt=False), 4),
+        "rgba8": (4, 1, 255, orgs(pl=True, alts=2, full_alt=False), 5), "gray16": (1, 2, 65535, BASE, 5),
+        "rgb16": (3, 2, 65535, orgs(pl=True, alts=1, full_alt=False), 5),
+        "gray32": (1, 4, 2**32 - 1, BASE, 6), "gray32f": (1, 4, "f32", BASE, 6),
+        "cmyk8": (4, 1, 255, BASE, 6),
         "gray1": (1, 1, 1, ["il", "sub"], 7), "gray2": (1, 1, 3, ["il", "sub"], 7), "gray4": (1, 1, 15, ["il", "sub"], 7)}
 TIFF_VARIANTS = ["tiff", "tiff-lzw", "tiff-deflate", "tiff-packbits", "tiff-tile16", "tiff-tile16-lzw", "tiff-tile32-deflate"]
-JPEG = {"gray8": (1, ["il", "sub", "step", "flip"]), "rgb8": (3, ORGS["rgb8"]), "cmyk8": (4, ["il", "sub", "step", "flip"])}
+JPEG = {"gray8": (1, BASE), "rgb8": (3, orgs(pl=True, alts=1)), "cmyk8": (4, BASE)}
 # libjpeg at quality 100 (GIL's defaults: 4:2:0 chroma subsampling for rgb, ISLOW DCT): bound on |channel - original| per content kind.
 # The property only says "bounded"; these are the measured maxima over the generated inputs with a margin (checks/C12.notes.md).
 JPEG_BOUND = {("gray8", "const"): 1, ("gray8", "ramp"): 2, ("gray8", "random"): 2,
@@ -98,8 +108,9 @@ def gen_ext(ctx):
         k = 0
         for w in range(1, hi + 1):
             for h in range(1, hi + 1):
-                k += 1
-                ops.append("rtx png %s %s %s %d %d %s" % (pix, orgs[k % len(orgs)], DEVS[(k // len(orgs)) % 4], w, h, content(r, KINDS[k % len(KINDS)], w, h, nch, cb, maxv)))
+                for _ in range(2 if len(orgs) > 8 else 1):
+                    k += 1
+                    ops.append("rtx png %s %s %s %d %d %s" % (pix, orgs[k % len(orgs)], DEVS[(k // len(orgs)) % 4], w, h, content(r, KINDS[k % len(KINDS)], w, h, nch, cb, maxv)))
         if th:
             for _ in range(400):
                 w, h = r.range(1, 40), r.range(1, 40)
@@ -199,7 +210,7 @@ def run(ctx, ops=None):
     hi = 16 if ctx.thorough() else 9
     return vlib.finish(ctx, "proof", obligations, discharged,
         rule="op = one write_view + read_image round trip. native (bmp/pnm/targa x every supported pixel type): every w,h in 1..%d x every organisation "
-             "(interleaved, planar, sub-view, (2,2)-stepped, flipped, other channel order; gray1: image and bit-offset sub-view) and x every destination kind (file name, FILE*, stringstream, fstream)%s; "
+             "(source: the pixel type, planar, the other channel orders incl. the file-native bgr8/bgra8; view kind: whole image, sub-view, (2,2)- and (2,1)-stepped, flipped up-down / left-right, transposed, rotated; gray1: image and bit-offset sub-view) and x every destination kind (file name, FILE*, stringstream, fstream)%s; "
              "written bytes compared byte-for-byte with the model encoder, read-back image with the model decoder, Spec (read back == source) judged on the real output. "
              "png (11 pixel types) / tiff (11 pixel types x strip/tile16/tile32 x none/lzw/deflate/packbits) / jpeg (3): real round trip judged. "
              "non-trivial = image with more than one pixel (distinct op lines counted)" % (hi, "; plus three random organisation/destination/content choices for every w,h in 1..40" if ctx.thorough() else ""),
